@@ -338,7 +338,7 @@ def _ref_verdict(case, listing: List[str], k: int, qb, fc_idx: int):
 
 def _pre_k2(lo, hi, k, fc, sa, qb) -> bool:
     case = ob.case()
-    if not (lo >= NEG_BOUND and hi >= NEG_BOUND):
+    if not (lo >= 0 and hi >= 0):  # the validity the parser enforces; the enforcement itself is checked in K1
         return False
     if case['m'][0] == 'matches':
         if not (0 <= fc < len(FC_NEST)):
@@ -840,7 +840,7 @@ def _k2_obligations(tier):
     for name, case in _k2_cases(tier):
         big = case['m'][0] == 'matches' or case.get('mods')
         obs.append(Ob(name='K2:' + name, fn='k2_match', case=case, kernel='K2',
-                      bound='fixture %r; `%sexists P : %s %s`; every integer operand K_i (depth limits >= -99), every verdict of '
+                      bound='fixture %r; `%sexists P : %s %s`; every integer operand K_i (depth limits >= 0), every verdict of '
                             'the stub matchers SA / SB per file%s' % (
                                 case['fx'], '! ' if case.get('neg') else '', _model_text(case),
                                 _matcher_text(case['m'], 0) if case['m'][0] != 'matches' else
